@@ -4,19 +4,17 @@ CONSTANTS
   ENT = 1
   N = 2
   WT = {1, 2}
-  OT = {7, 8}
-  KS = {1, 2}
-  AddCs = {0, 1, 9}
-  RepCs <- RepCsFull
-  DescSel = {1,2,3,4,5,6,8,9,10,11,12,14,16,18}
-  Readers = {}
+  OT = {}
+  KS = {1}
+  AddCs = {0}
+  RepCs <- RepCsNone
+  DescSel = {1, 3}
+  Readers <- ReaderKinds
   ImplicitModes <- ImplicitRb
 INVARIANT InvWellFormed
 INVARIANT InvFrame
 INVARIANT InvCompact
 INVARIANT InvUnique
 INVARIANT InvNoLeak
-INVARIANT InvFamily
 INVARIANT InvSteps
-INVARIANT InvCarry
 CHECK_DEADLOCK FALSE
